@@ -206,6 +206,20 @@ def run(ctx):
          'every id taken from the guard queue is handed to the (non-aborting) removal, so abandoned handlers stop counting without waiting for their deadline', [g.loc(t) for g, t in fw] or [pn.loc(pn.d)])
     R.count('functions_analysed', len(reach) + len(T1.methods) + len(T2.methods) + 5)
 
+    # the guard queue is registered on every idle return of the request stream (abandoned handlers are untracked without waiting for deadlines)
+    from .coverage import coverage
+    coverage(ctx, 'C11.cover', ('K',))
+    # client: an id taken from the cancellation queue always reaches the table removal (and, if it hit, the wire) before the dispatch returns
+    from .wake import dispatch_setup
+    from .shape_common import run_jobs
+    from .C03 import OwedCancelAut
+    poll_, reach_, acc, cells, cmps = dispatch_setup(F, P)
+    res = run_jobs(F, [{'key': 'owed', 'entry': poll_.id, 'aut': ('custom', OwedCancelAut), 'acc': acc, 'cells': cells}])['owed']
+    lost = sorted({(e[0], repr(ret)[:40]) for (ret, e, lab) in res['exits'] if e[0] in ('owed', 'taken') and not ('Err' in repr(ret)) and not any(isinstance(v, tuple) and v and v[0] == 'Some' for _, v in e[1])})
+    R.ob('C11.cancel', ('client dispatch poll', 'a consumed cancellation always untracks its request'), not lost and not res['viol'],
+         'once an id was taken from the client\'s cancellation queue, the table removal for it happens in the same activation: an abandoned call\'s entry and timer cannot be left behind by an early return',
+         [poll_.loc(poll_.d)], 'exits with a consumed but unprocessed cancellation: %s' % lost)
+
 
 def _locals_of(P, g, agg_stmt, field):
     """locals that (through temporaries) feed the given field of an aggregate statement"""
